@@ -551,3 +551,65 @@ def fuzzy_companions(ctx, rule, relpath, qual):
                                   "variables on any other dimension were not selected and must come back unchanged"
                                   % (extra or 'no other dimension', (' and not to %s' % miss) if miss else '')), oid=qual)
     return n
+
+
+def stale_loop_variables(fn):
+    """a name that is only ever bound as the target of one for loop, and is read inside the body of a *later* sibling loop (after the
+    first loop has finished): there it holds the last value of the finished loop for every iteration - the classic slip of reusing the
+    wrong index.  Reads after the loop outside any loop (use of the last value) are not reported.  -> [(name, defining loop, read node)]"""
+    out = []
+    binds = {}
+    for n in ast.walk(fn):
+        if isinstance(n, ast.Name) and isinstance(n.ctx, (ast.Store, ast.Del)):
+            binds.setdefault(n.id, []).append(n)
+        elif isinstance(n, ast.arg):
+            binds.setdefault(n.arg, []).append(n)
+
+    def targets(lp):
+        return set(x.id for x in ast.walk(lp.target) if isinstance(x, ast.Name))
+    for blk_owner in ast.walk(fn):
+        for fld in ('body', 'orelse', 'finalbody'):
+            blk = getattr(blk_owner, fld, None)
+            if not (isinstance(blk, list) and blk and isinstance(blk[0], ast.stmt)):
+                continue
+            for i, lp in enumerate(blk):
+                if not isinstance(lp, ast.For):
+                    continue
+                inside = set(id(x) for x in ast.walk(lp))
+                for nm in targets(lp):
+                    for j, later in enumerate(blk[i + 1:], start=i + 1):
+                        if not isinstance(later, (ast.For, ast.While)):
+                            continue
+                        # bound nowhere but in the defining loop and in statements that come after the reading loop
+                        after_ids = set(id(x) for s3 in blk[j + 1:] for x in ast.walk(s3))
+                        if any(id(b) not in inside and id(b) not in after_ids for b in binds.get(nm, [])):
+                            break
+                        bodynodes = [x for s2 in later.body for x in ast.walk(s2)]
+                        reads = [x for x in bodynodes if isinstance(x, ast.Name) and x.id == nm and isinstance(x.ctx, ast.Load)]
+                        if reads:
+                            out.append((nm, lp, reads[0]))
+                            break
+    return out
+
+
+def guard_object_mismatch(fn):
+    """`if K not in A.dimensions: B.createDimension(K ..) / B.copyDimension(..key=K)` (same for variables) with A and B different
+    objects: the guard asks one file whether the name is missing and adds it to another.  -> [(if stmt, guard object, populated object)]"""
+    out = []
+    for st in ast.walk(fn):
+        if not isinstance(st, ast.If):
+            continue
+        t = st.test
+        if not (isinstance(t, ast.Compare) and len(t.ops) == 1 and isinstance(t.ops[0], ast.NotIn) and isinstance(t.comparators[0], ast.Attribute)
+                and t.comparators[0].attr in ('dimensions', 'variables') and isinstance(t.comparators[0].value, ast.Name) and isinstance(t.left, ast.Name)):
+            continue
+        kind, gobj, key = t.comparators[0].attr, t.comparators[0].value.id, t.left.id
+        for s2 in st.body:
+            for c in ast.walk(s2):
+                if isinstance(c, ast.Call) and isinstance(c.func, ast.Attribute) and isinstance(c.func.value, ast.Name):
+                    meth = c.func.attr
+                    if kind == 'dimensions' and meth in ('createDimension', 'copyDimension') or kind == 'variables' and meth in ('createVariable', 'copyVariable'):
+                        names = [norm(a) for a in c.args] + [norm(k.value) for k in c.keywords]
+                        if key in names and c.func.value.id != gobj:
+                            out.append((st, gobj, c.func.value.id))
+    return out
